@@ -2,7 +2,7 @@
 
 tie: T (every naming function translated from the AST of mulgrids.py on every run, including the
 while loop of new_dict_key and the for/while loops of the name-deciding slice of add_layers, see
-props/c17_translate.py; theorems in coq/C17/Props.v, Props2.v, Props3.v, Props4.v and Props5.v are about the generated code);
+props/c17_translate.py; theorems in coq/C17/Props.v, Props2.v, Props3.v, Props4.v, Props5.v and Props6.v are about the generated code);
 the generated functions are also run (extracted, with exactly the fuel the theorems give) against
 the real ones, and the property statement is evaluated on the implementation (oracle)."""
 import os, itertools, string, ast, warnings
@@ -470,7 +470,7 @@ def run(ctx):
     ok = translate(ctx)
     exe = None
     if ok:
-        ctx.coq_build(props=('Props.v', 'Props2.v', 'Props3.v', 'Props4.v', 'Props5.v'))
+        ctx.coq_build(props=('Props.v', 'Props2.v', 'Props3.v', 'Props4.v', 'Props5.v', 'Props6.v'))
         exe = vf.build_driver(ctx)
     if exe:
         try:
